@@ -25,7 +25,9 @@ import (
 //   iface     only interfaces (Node, Named implements Node)   node / named  ONE interface each (two such files)
 //   union     only unions                                      abstract      interfaces + unions
 //   enum      only enums            scalar  only custom scalars              leaf  enums + scalars
-//   directive only directive definitions                       schemadef     only `schema { query: … }`
+//   directive only (type-system) directive definitions         schemadef     only `schema { query: … }`
+//   execdir   only a directive on QUERY | MUTATION | FIELD_DEFINITION (directed projects only: finding F17l)
+//   execdir2  an object + a directive on QUERY | FIELD, beside the base file's executable directive (F17m)
 //   ext       only extensions (extend type / input / enum / union / interface)
 //   extabs    only extensions of abstract types (extend union, extend interface + the implementors' fields)
 //   input     only input objects    object  only (non-root) objects          mutation  only the Mutation root
@@ -48,14 +50,15 @@ type fkDef struct {
 }
 
 var fkUniverse = []fkDef{
-	{"tag", "directive", false, "directive @tag(v: String = \"t\", kinds: [Kind!]) on FIELD_DEFINITION | ARGUMENT_DEFINITION | INPUT_FIELD_DEFINITION | OBJECT | INTERFACE | UNION | ENUM | INPUT_OBJECT\n"},
+	{"tag", "directive", false, "directive @tag(v: String = \"t\", n: [Int!]) on FIELD_DEFINITION | ARGUMENT_DEFINITION | INPUT_FIELD_DEFINITION | OBJECT | INTERFACE | UNION | ENUM | INPUT_OBJECT\n"},
 	{"auth", "directive", false, "directive @auth(role: Kind = SMALL, at: Time) on FIELD_DEFINITION | QUERY | MUTATION\n"},
+	{"audit", "directive", false, "directive @audit(label: String = \"a\") on FIELD | QUERY | SUBSCRIPTION | OBJECT\n"},
 	{"schema", "schemadef", false, "schema {\n  query: Query\n  mutation: Mutation\n}\n"},
 	{"Query", "root", true, "type Query {\n  item(id: ID!, f: Filter @tag): Item\n  node(id: ID!): Node\n  named: [Named!]\n  shapes(p: Paging): [Shape!]! @auth(role: LARGE)\n  search(text: String!, kind: Kind = SMALL): [SearchResult]\n  color: Color\n  at: Time @tag(v: null)\n  any(v: Any): Any\n}\n"},
 	{"Mutation", "root", true, "type Mutation {\n  put(id: ID!, f: Filter!): Item @auth\n  paint(c: Color!): Boolean\n}\n"},
-	{"Item", "object", true, "type Item implements Node & Named @tag(kinds: [SMALL]) {\n  id: ID!\n  name: String\n  kind: Kind\n  at: Time\n  shape: Shape\n}\n"},
+	{"Item", "object", true, "type Item implements Node & Named @tag(n: [1, 2]) {\n  id: ID!\n  name: String\n  kind: Kind\n  at: Time\n  shape: Shape\n}\n"},
 	{"Circle", "object", true, "type Circle implements Node {\n  id: ID!\n  r: Float\n}\n"},
-	{"Square", "object", true, "type Square {\n  a: Float\n  colour: Color @tag\n}\n"},
+	{"Square", "object", true, "type Square @audit {\n  a: Float\n  colour: Color @tag\n}\n"},
 	{"Node", "iface", true, "interface Node {\n  id: ID!\n}\n"},
 	{"Named", "iface", true, "interface Named implements Node @tag {\n  id: ID!\n  name: String\n}\n"},
 	{"Shape", "union", true, "union Shape @tag(v: \"u\") = Circle | Square\n"},
@@ -64,7 +67,7 @@ var fkUniverse = []fkDef{
 	{"Color", "enum", true, "enum Color {\n  RED\n  GREEN\n}\n"},
 	{"Time", "scalar", true, "scalar Time\n"},
 	{"Any", "scalar", true, "scalar Any\n"},
-	{"Filter", "input", true, "input Filter @tag {\n  kind: Kind = LARGE\n  names: [String!]\n  page: Paging\n  since: Time @tag(kinds: [])\n}\n"},
+	{"Filter", "input", true, "input Filter @tag {\n  kind: Kind = LARGE\n  names: [String!]\n  page: Paging\n  since: Time @tag(n: [])\n}\n"},
 	{"Paging", "input", true, "input Paging {\n  first: Int = 10\n  after: ID\n}\n"},
 	{"Orphan", "iface", false, "interface Orphan {\n  x: Int\n}\n"},
 	{"Lonely", "union", false, "union Lonely = Square\n"},
@@ -88,7 +91,10 @@ var fkClasses = map[string][]string{
 	"enum":      {"Kind", "Color"},
 	"scalar":    {"Time", "Any"},
 	"leaf":      {"Kind", "Color", "Time", "Any"},
-	"directive": {"tag", "auth"},
+	"directive": {"tag"},
+	// executable directives (QUERY | MUTATION | FIELD ...): their middleware functions are written per schema file
+	"execdir":   {"auth"},         // alone in a file that gets no build (known finding F17l)
+	"execdir2":  {"audit", "Square"}, // a SECOND file with a build that defines an executable directive (known finding F17m)
 	"schemadef": {"schema"},
 	"ext":       {"extQuery", "extItem", "extKind", "extFilter"},
 	"extabs":    {"extShape", "extNode"},
@@ -105,7 +111,7 @@ var fkClassOrder = []string{"iface", "node", "named", "union", "abstract", "enum
 
 // classes that can stand in ONE project (no definition claimed twice)
 var fkCoverSets = [][]string{
-	{"node", "named", "union", "enum", "scalar", "directive", "schemadef", "ext", "extabs", "input", "object", "mutation", "query", "unused", "comment", "blank"},
+	{"node", "named", "union", "enum", "scalar", "directive", "schemadef", "ext", "extabs", "input", "mutation", "query", "unused", "comment", "blank"},
 	{"abstract", "leaf", "directive", "ext", "input", "mutation", "unused", "comment"},
 	{"iface", "union", "leaf", "extabs", "object", "schemadef", "blank"},
 }
@@ -325,7 +331,8 @@ func writeFileKinds(root string, seed uint64, tier, corpus string) {
 			}
 			for k := 0; k < 4; k++ {
 				funcSyn, follow := k >= 2, k == 1 || k == 2
-				if tier != "thorough" && k%2 != idx%2 {
+				// quick: one (flavour, layout) point per entry, follow-schema twice as often; thorough: all four
+				if tier != "thorough" && k != []int{1, 2, 0, 1, 2, 3}[idx%6] {
 					continue
 				}
 				p := &fkProject{name: "c17f_" + fs[0] + "_" + sfx(funcSyn, follow), classes: fs[2:], opts: opts, funcSyn: funcSyn, follow: follow, cfg: cfg,
@@ -364,8 +371,9 @@ func writeFileKinds(root string, seed uint64, tier, corpus string) {
 	for si, set := range fkCoverSets {
 		for k := 0; k < 4; k++ {
 			funcSyn, follow := k >= 2, k == 1 || k == 2
-			// quick: the first partition in all four, the others under follow-schema with alternating flavour
-			if tier != "thorough" && si > 0 && !(follow && funcSyn == (si%2 == 0)) {
+			// quick: the first partition under both layouts (flavours crossed), the others under follow-schema with
+			// alternating flavour
+			if tier != "thorough" && ((si == 0 && k%2 == 1) || (si > 0 && !(follow && funcSyn == (si%2 == 0)))) {
 				continue
 			}
 			p := &fkProject{name: fmt.Sprintf("c17f%03d_all%d_%s", n, si, sfx(funcSyn, follow)), classes: set, funcSyn: funcSyn, follow: follow, cfg: spreadOptions(k+si, off),
@@ -381,7 +389,14 @@ func writeFileKinds(root string, seed uint64, tier, corpus string) {
 		for x := 0; x < 12; x++ {
 			claimed := map[string]bool{}
 			var cls []string
-			perm := r.Perm(len(fkClassOrder))
+			perm := make([]int, len(fkClassOrder))
+			for i := range perm {
+				perm[i] = i
+			}
+			for i := len(perm) - 1; i > 0; i-- {
+				j := r.Below(i + 1)
+				perm[i], perm[j] = perm[j], perm[i]
+			}
 			want := 1 + r.Below(6)
 			for _, i := range perm {
 				c := fkClassOrder[i]
